@@ -250,7 +250,7 @@ Section WFItems.
       { unfold kvl. rewrite map_map. apply Forall_forall. intros it Hit. apply in_map_iff in Hit as (kv & <- & Hkv).
         rewrite Forall_forall in IH. apply (IH (snd kv)). apply in_map, Hkv. }
       destruct (tbl_of_built kvl Hk' Hv' [] None BE_nil) as (l' & E & Hl').
-      change tbl_new with (mk_tbl [] None). rewrite E. constructor. exact Hl'.
+      change tbl_new with (mk_tbl [] None). rewrite E. apply (BI_table PS PK false l' Hl'). discriminate.
     - intros ts IH. cbn [eval_item].
       assert (G : forall tbls, Forall (fun t => exists l', t = mk_tbl l' None /\ BE l') tbls -> forall ls0, Forall BE ls0 ->
                 exists ls', fold_left aot_push tbls (IAot (map (fun l => mk_tbl l None) ls0) None)
@@ -272,7 +272,11 @@ Section WFItems.
         change tbl_new with (mk_tbl [] None). apply (tbl_of_built kvl Hk' Hv' [] None BE_nil).
       + constructor.
       + unfold aot_new. change (@nil tbl) with (map (fun l : list (bytes * item) => mk_tbl l None) []). rewrite E.
-        constructor. exact Hls'.
+        replace (map (fun l => mk_tbl l None) ls')
+          with (map (fun x : bool * list (bytes * item) => Tbl (mk_tbl_items (snd x)) decor_default (fst x) false None None)
+                    (map (fun l => (false, l)) ls')) by (rewrite map_map; reflexivity).
+        constructor. apply Forall_forall. intros x Hx. apply in_map_iff in Hx as (l0 & <- & Hl0). cbn [snd].
+        rewrite Forall_forall in Hls'. apply Hls', Hl0.
   Qed.
 
   (* C06_built_WF, documents *)
@@ -286,8 +290,8 @@ Section WFItems.
       rewrite Forall_forall in Hl. apply eval_item_built, (Hl (snd kv)). apply in_map, Hkv. }
     destruct from_table.
     - destruct (tbl_of_built kvl Hk' Hv' [] None BE_nil) as (l' & E & Hl').
-      change tbl_new with (mk_tbl [] None). rewrite E. exists l', None. auto.
+      change tbl_new with (mk_tbl [] None). rewrite E. exists l', false, None. auto.
     - destruct (tbl_of_built kvl Hk' Hv' [] (Some 0%N) BE_nil) as (l' & E & Hl').
-      change doc_root_new with (mk_tbl [] (Some 0%N)). rewrite E. exists l', (Some 0%N). auto.
+      change doc_root_new with (mk_tbl [] (Some 0%N)). rewrite E. exists l', false, (Some 0%N). auto.
   Qed.
 End WFItems.
